@@ -198,15 +198,20 @@ def history(specs, steps):
     for st in steps:
         for k in st.get("read", []):
             _ = B[k].com, B[k].aabb(), B[k].tetrahedra_points          # fills caches (aabb() builds the tree)
+        moved_others = []
         if st.get("move") is not None:
             k, M, side = st["move"]
+            world_before = [np.dot(b.vertices_, b.body2origin_[:3, :3].T) + b.body2origin_[:3, 3] for b in B]
             # in place, as the simulation examples do
             B[k].body2origin_[:] = np.dot(A(M), B[k].body2origin_) if side == "left" else np.dot(B[k].body2origin_, A(M))
+            for m, b in enumerate(B):
+                if m != k and not np.array_equal(world_before[m], np.dot(b.vertices_, b.body2origin_[:3, :3].T) + b.body2origin_[:3, 3]):
+                    moved_others.append(m)       # bodies share a pose array
         i, j = st["pair"]
         si, sj = snapshot(B[i]), snapshot(B[j])
         exp = one_call(si, sj, st["mode"])
         got = one_call(B[i], B[j], st["mode"])
-        out.append(dict(exp=exp, got=got, caches_i=cache_consistent(B[i]), caches_j=cache_consistent(B[j])))
+        out.append(dict(exp=exp, got=got, caches_i=cache_consistent(B[i]), caches_j=cache_consistent(B[j]), moved_others=moved_others))
     return out
 
 
